@@ -225,3 +225,11 @@ def h4(ctx: Ctx) -> None:
     from .c18 import r1 as inheritance_rule
 
     inheritance_rule(ctx)
+
+
+
+@rule("C15.H5", "whether an order is a limit order (and so subject to the price range) is decided by value", "T13 lint over PriceLimitRule, Order, OrderKind", floor=8)
+def h5(ctx: Ctx) -> None:
+    from .events import check_identity_comparisons
+
+    check_identity_comparisons(ctx, ["PriceLimitRule", "Order", "OrderKind"], floor=8)
